@@ -8,7 +8,7 @@ import (
 
 func TestMain(m *testing.M) {
 	ev.Main(m, "C03", "exploration",
-		"model-based rapid state machine: 1-3 sessions on 2-4 mailboxes issue APPEND, STORE (+/-/= with flag names in mixed case, keywords over the atom alphabet, case-duplicates), EXPUNGE, UID EXPUNGE, CLOSE, COPY, MOVE (incl. destination = source, destination already holding the message, missing destination, invalid sequence numbers, read-only sessions); after every command a fresh view of every mailbox (markers, flags, bytes) is compared with the reference model M-box; a second family creates N messages in one connector update for N on both sides of the statement batching limits (1,2,499,500,501,999,1000,1001,1500,2001) and applies one STORE/COPY/MOVE/EXPUNGE to 1:* or a sub-range. Non-trivial: a case containing a COPY/MOVE whose destination already held >= 1 of the messages, or a set operation over > 500 messages, or a refused command; distinct by hash of the operation sequence.",
-		"a session is brought up to date (barrier + NOOP) before each of its commands, so message sets are resolved against a current view; stale views are the subject of C01/C02/C05/C16",
+		"model-based rapid state machine: 1-3 sessions on 2-4 mailboxes issue APPEND, STORE (+/-/= with flag names in mixed case, keywords over the atom alphabet, case-duplicates), EXPUNGE, UID EXPUNGE, CLOSE, COPY, MOVE (incl. destination = source, destination already holding the message, missing destination, invalid sequence numbers, read-only sessions, MOVE by a session whose view is behind because another session removed messages it still shows); after every command a fresh view of every mailbox (markers, flags, bytes) is compared with the reference model M-box; a second family creates N messages in one connector update for N on both sides of the statement batching limits (1,2,499,500,501,999,1000,1001,1500,2001) and applies one STORE/COPY/MOVE/EXPUNGE to 1:* or a sub-range. Non-trivial: a case containing a COPY/MOVE whose destination already held >= 1 of the messages, or a set operation over > 500 messages, or a refused command, or a MOVE addressing a message that its mailbox no longer holds; distinct by hash of the operation sequence.",
+		"except for the MOVE-from-a-stale-view action, a session is brought up to date (barrier + NOOP) before each of its commands, so message sets are resolved against a current view; stale views are otherwise the subject of C01/C02/C05/C16",
 		"connector policy silent (a connector cannot represent keywords); \\Recent is ignored; message identity through the X-Verif-Marker header")
 }
